@@ -2772,6 +2772,9 @@ class Interp:
             eid = self.fresh('e')
             src, body, conds = self.as_pipeline(recv, eid)
             return ('star', src, eid, ('tuple', [('pos', eid), body]), conds, False)
+        if m == 'zip' and len(args) == 1 and recv[0] == 'tuple' and args[0][0] == 'tuple' and len(recv[1]) == len(args[0][1]) <= 16:
+            # two literal lists of the same length (`[&struct_name].into_iter().zip([layout.size])`): the list of pairs
+            return ('tuple', [('tuple', [a_, b_]) for a_, b_ in zip(recv[1], args[0][1])])
         if m == 'zip' and len(args) == 1 and not (recv[0] == 'star' and recv[5]) and not (args[0][0] == 'star' and args[0][5]):
             # two sequences produced from the same source with the same selection (e.g. a list and a list mapped from it, or two mappings of one
             # list): position i of both stems from the same element, so the pairs are one iteration with a pair as body
@@ -2908,6 +2911,11 @@ class Interp:
         return ('mcall', recv, m, [])
 
     def iter_method(self, m, recv, args_nodes, env, node):
+        if m == 'map' and recv[0] == 'tuple' and 0 < len(recv[1]) <= 8 and len(args_nodes) == 1:
+            # a literal list mapped element by element (`[&struct_name].into_iter().zip([layout.size]).map(|(name, expected)| ..)`): a literal list
+            fn_ = self.expr(args_nodes[0], env)
+            if fn_[0] == 'closure' or (fn_[0] == 'path' and fn_[1] in self.c.fns):
+                return ('tuple', [self.call_value(fn_, [x]) for x in recv[1]])
         if recv[0] == 'star' and recv[5] and m in ('map', 'filter', 'filter_map', 'inspect') and recv[3][0] not in ('tmpl', 'alt', 'opt', 'tuple', 'struct'):
             # an adapter after `flat_map(..)` works on the elements of the inner sequences: push it into the inner iteration
             _, src, eid, body, conds, _flat = recv
